@@ -9,6 +9,10 @@ def run(ctx, res):
     F = ctx.facts("core")
     tbl.r2_fixpoints(F, res, res.rule("T-R2", "fixpoint loops are well formed (shared with C01)", floor=9))
     tbl.r3_monotone(F, res, res.rule("T-R3", "lookahead sets of LR items only grow (none lost)", floor=3))
+    tbl.r4_first(F, res, res.rule("T-R4", "FIRST of a symbol string and the FIRST fixpoint (shared with C01: the lookaheads of canonical "
+                                  "LR(1) items are FIRST sets)", floor=4))
+    tbl.r5_closure(F, res, res.rule("T-R5", "LR(1) closure lookahead rule (shared with C01: FIRST of the WHOLE rest, the item's lookaheads "
+                                    "iff that rest is nullable)", floor=3))
     tbl.r6_successors(F, res, res.rule("T-R6", "successor states: same transitions as the item cores prescribe", floor=1))
     tbl.r7_registration(F, res, res.rule("T-R7", "state search and registration", floor=2))
     tbl.r8_merge(F, res, res.rule("T-R8", "merge is core-equal, guarded, all-or-nothing, items paired by (prod, position)", floor=4))
